@@ -61,13 +61,14 @@ func vote(w *harness.World, id governance.ProposalID, i int, op governance.VoteO
 }
 
 // govHistory builds the canonical proposal history up to (excluding) the given stage. Heights:
-//   1,2  empty (the validators' active-status records appear at EndBlock 2)
-//   3    A creates the proposal           (funding deadline 6)
-//   4    B funds 50 OLT                   (60 < goal 100)
-//   5    C funds 40 OLT                   (100 >= goal: VOTING, voting deadline 8, validator snapshot)
-//   6    V1 votes YES                     (3M/6M = 50 %% < 51 %%: undecided)
-//   7    V2 votes YES                     (5M/6M: PASSED -> passed store)
-//   8    BeginBlock queues, EndBlock runs the internal PROPOSAL_FINALIZE
+//
+//	1,2  empty (the validators' active-status records appear at EndBlock 2)
+//	3    A creates the proposal           (funding deadline 6)
+//	4    B funds 50 OLT                   (60 < goal 100)
+//	5    C funds 40 OLT                   (100 >= goal: VOTING, voting deadline 8, validator snapshot)
+//	6    V1 votes YES                     (3M/6M = 50 %% < 51 %%: undecided)
+//	7    V2 votes YES                     (5M/6M: PASSED -> passed store)
+//	8    BeginBlock queues, EndBlock runs the internal PROPOSAL_FINALIZE
 const (
 	hCreate = 3
 	hFundB  = 4
@@ -111,11 +112,38 @@ func govPrefix(w *harness.World, id governance.ProposalID, typ governance.Propos
 func govScenario(kind action.Type, note string, typ governance.ProposalType, cfg string, upto stage,
 	extra func(w *harness.World, id governance.ProposalID) []harness.BlockSpec,
 	target func(w *harness.World, id governance.ProposalID) *harness.TxSpec, after int) *harness.Scenario {
+	return govScenarioIn(world(note), kind, note, typ, cfg, upto, extra, target, after)
+}
+
+// BigWorld is the default world with main-net sized governance periods: only then do the validators
+// of action/govUpdate.go accept updates of the proposal, staking and evidence options (they demand
+// funding/voting deadlines >= 10000/75000/150000 blocks, maturity time >= 109200, vote window >= 1000).
+// A proposal can still be funded, voted and finalised within a few blocks because the deadlines are
+// upper bounds only.
+func BigWorld(name string) *harness.World {
+	w := harness.NewWorld("gov-big-"+name, 4, 3)
+	po := &w.Gov.PropOptions
+	po.ConfigUpdate.FundingDeadline, po.ConfigUpdate.VotingDeadline = 10000, 10000
+	po.CodeChange.FundingDeadline, po.CodeChange.VotingDeadline = 10000, 150000
+	po.General.FundingDeadline, po.General.VotingDeadline = 75000, 75000
+	w.Gov.StakingOptions.MaturityTime = 109200
+	w.Gov.EvidenceOptions.BlockVotesDiff = 1000
+	w.Gov.EvidenceOptions.MinVotesRequired = 700
+	return w
+}
+
+func bigWorld(name string) func() *harness.World {
+	return func() *harness.World { return BigWorld(name) }
+}
+
+func govScenarioIn(wf func() *harness.World, kind action.Type, note string, typ governance.ProposalType, cfg string, upto stage,
+	extra func(w *harness.World, id governance.ProposalID) []harness.BlockSpec,
+	target func(w *harness.World, id governance.ProposalID) *harness.TxSpec, after int) *harness.Scenario {
 	id := PID(note)
 	return &harness.Scenario{
 		Kind:  kind.String(),
 		Note:  note,
-		World: world(note),
+		World: wf,
 		Prefix: func(w *harness.World) []harness.BlockSpec {
 			p := govPrefix(w, id, typ, cfg, upto)
 			if extra != nil {
@@ -162,6 +190,45 @@ func governanceScenarios() []*harness.Scenario {
 	add(govScenario(action.PROPOSAL_VOTE, "vote-yes-passes-general-finalized", tGeneral, "", stVote2, nil, step(stVote2, tGeneral, ""), 3))
 	add(govScenario(action.PROPOSAL_VOTE, "vote-yes-passes-config-update-finalized", tConfig, ConfigUpdatePayload, stVote2, nil, step(stVote2, tConfig, ConfigUpdatePayload), 3))
 	add(govScenario(action.PROPOSAL_VOTE, "vote-yes-passes-code-change-finalized", tCode, "", stVote2, nil, step(stVote2, tCode, ""), 3))
+	// other option records reachable by a config update
+	for _, c := range []struct {
+		note, payload string
+		big           bool
+	}{
+		{"vote-yes-passes-config-update-fee-option", "feeOption.minFeeDecimal:10", false},
+		{"vote-yes-passes-config-update-ons-base-price", "onsOptions.baseDomainPrice:5000000000000000000", false},
+		{"vote-yes-passes-config-update-proposal-options-bigworld", "propOptions.general.passPercentage:60", true},
+		{"vote-yes-passes-config-update-staking-options-bigworld", "stakingOptions.topValidatorCount:8", true},
+		{"vote-yes-passes-config-update-evidence-options-bigworld", "evidenceOptions.penaltyBasePercentage:20", true},
+	} {
+		wf := world(c.note)
+		if c.big {
+			wf = bigWorld(c.note)
+		}
+		add(govScenarioIn(wf, action.PROPOSAL_VOTE, c.note, tConfig, c.payload, stVote2, nil, step(stVote2, tConfig, c.payload), 3))
+	}
+	// two proposals in flight: P passes at height 7 and is finalised at EndBlock(8); Q reached VOTING at
+	// height 4 (deadline 7) and expires at the same EndBlock(8): both internal queues are used at once
+	add(func() *harness.Scenario {
+		note := "vote-passes-while-other-proposal-expires-same-endblock"
+		p, q := PID(note+"-P"), PID(note+"-Q")
+		return &harness.Scenario{
+			Kind:  action.PROPOSAL_VOTE.String(),
+			Note:  note,
+			World: world(note),
+			Prefix: func(w *harness.World) []harness.BlockSpec {
+				A, B, C := w.Users[0], w.Users[1], w.Users[2]
+				return []harness.BlockSpec{{}, {},
+					blk(ValidCreate(w, p, tGeneral, A, 3, "", "createP"), ValidCreate(w, q, tGeneral, B, 3, "", "createQ")), // 3
+					blk(ProposalFund(q, C, olt(90), "fundQ")), // 4: Q voting, deadline 7
+					blk(ProposalFund(p, C, olt(90), "fundP")), // 5: P voting, deadline 8
+					blk(vote(w, p, 0, governance.OPIN_POSITIVE, "vote1P"), vote(w, q, 2, governance.OPIN_POSITIVE, "vote3Q")), // 6
+				}
+			},
+			Target: func(w *harness.World) *harness.TxSpec { return vote(w, p, 1, governance.OPIN_POSITIVE, "vote2P") }, // 7
+			After:  3,
+		}
+	}())
 	// V1 holds 50 % of the snapshot power: 1 - 0.5 < 0.51, a single NO fails the proposal
 	add(govScenario(action.PROPOSAL_VOTE, "vote-no-fails-finalized", tGeneral, "", stVote1, nil,
 		func(w *harness.World, id governance.ProposalID) *harness.TxSpec {
@@ -351,7 +418,9 @@ func onsScenarios() []*harness.Scenario {
 	// ---- DOMAIN_SELL ----
 	add(onsScenario(action.DOMAIN_SELL, "put-on-sale", withA(20), sell50, 1))
 	add(onsScenario(action.DOMAIN_SELL, "cancel-sale", withA(20, sell50),
-		func(w *harness.World) *harness.TxSpec { return DomainSell(w.Users[0], "a.ol", olt(50), true, "cancel-sale") }, 1))
+		func(w *harness.World) *harness.TxSpec {
+			return DomainSell(w.Users[0], "a.ol", olt(50), true, "cancel-sale")
+		}, 1))
 
 	// ---- DOMAIN_PURCHASE ----
 	add(onsScenario(action.DOMAIN_PURCHASE, "purchase-on-sale-above-price", withA(20, sell50),
@@ -437,4 +506,3 @@ func Scenarios() []*harness.Scenario {
 	}
 	return out
 }
-
